@@ -1,4 +1,5 @@
 import SpecterModel.C01.Drv
+import SpecterModel.C06.Drv
 import SpecterModel.C08.Drv
 import SpecterModel.C09.Drv
 import SpecterModel.C11.Drv
@@ -7,6 +8,7 @@ import SpecterModel.C13.Drv
 import SpecterModel.C15.Drv
 import SpecterModel.C16.Drv
 import SpecterModel.C17.Drv
+import SpecterModel.C18.Drv
 import SpecterModel.C19.Drv
 import SpecterModel.C20.Drv
 import SpecterModel.C21.Drv
@@ -28,6 +30,8 @@ import SpecterModel.C36.Drv
 import SpecterModel.C37.Drv
 import SpecterModel.C38.Drv
 import SpecterModel.C39.Drv
+import SpecterModel.C40.Drv
+import SpecterModel.C42.Drv
 import SpecterModel.C43.Drv
 import SpecterModel.C44.Drv
 import SpecterModel.C45.Drv
@@ -41,6 +45,7 @@ import SpecterModel.C51.Drv
 def main (args : List String) : IO UInt32 := do
   match args with
   | ["C01"] => do Specter.C01.main; return 0
+  | ["C06"] => do Specter.C06.main; return 0
   | ["C08"] => do Specter.C08.main; return 0
   | ["C09"] => do Specter.C09.main; return 0
   | ["C11"] => do Specter.C11.main; return 0
@@ -49,6 +54,7 @@ def main (args : List String) : IO UInt32 := do
   | ["C15"] => do Specter.C15.main; return 0
   | ["C16"] => do Specter.C16.main; return 0
   | ["C17"] => do Specter.C17.main; return 0
+  | ["C18"] => do Specter.C18.main; return 0
   | ["C19"] => do Specter.C19.main; return 0
   | ["C20"] => do Specter.C20.main; return 0
   | ["C21"] => do Specter.C21.main; return 0
@@ -70,6 +76,8 @@ def main (args : List String) : IO UInt32 := do
   | ["C37"] => do Specter.C37.main; return 0
   | ["C38"] => do Specter.C38.main; return 0
   | ["C39"] => do Specter.C39.main; return 0
+  | ["C40"] => do Specter.C40.main; return 0
+  | ["C42"] => do Specter.C42.main; return 0
   | ["C43"] => do Specter.C43.main; return 0
   | ["C44"] => do Specter.C44.main; return 0
   | ["C45"] => do Specter.C45.main; return 0
